@@ -30,6 +30,16 @@ func checkC16(w *World, tier string) *Report {
 	addSharedConstRule(w, r, "R16.2")
 	addGlobalWriteRule(w, r, "R16.3")
 	addFreshTracerRule(w, r, "R16.4")
+	{
+		// the per-EVM copy of the shared instruction table (copyJumpTable before EnableEIP) is the reference's:
+		// an extra EIP enabled in place would change what every later EVM of that fork executes
+		s := w.e1()
+		want := map[string]bool{"NewEVMInterpreter": true, "copyJumpTable": true, "EnableEIP": true, "newstack": true, "returnStack": true}
+		s.cloneRule(r, "R17.2", pkVM, func(name string, pr *PairResult) bool { return want[name] })
+	}
+	addMutableGlobalRule(w, r, "R16.5")
+	addSharedClosureStateRule(w, r, "R17.5")
+	addR84(w, r, "R8.4") // recycled frame memory would let one execution overwrite what another still refers to
 	r.Assumptions = append(r.Assumptions, "StateDB, Aspect runtime and crypto are deterministic (external)", "sort.Strings/sort.Ints/slices.Sort and bytes.Compare order whole elements totally")
 	return r
 }
@@ -40,7 +50,7 @@ func checkC17(w *World, tier string) *Report {
 		"R17.1 = R16.2 + R16.3 (shared 256-bit constants are never written; no store rooted in a package-level variable outside initialisation; shared precompile instances never write their receiver; CloneWithCtx returns a new allocation); " +
 		"R17.2 everything that touches the shared instruction tables, the stack pool and the abort flag is an SSA clone of go-ethereum v1.12.0 or embeds it with reviewed insertions (NewEVMInterpreter incl. copyJumpTable before EnableEIP, copyJumpTable, newstack/returnStack, opJump/opJumpi, Cancel/Cancelled, the interpreter loop); " +
 		"R17.3 type facts: EVM.abort has type sync/atomic.Bool and its address is used only as the receiver of sync/atomic methods; stackPool is a sync.Pool used only through Get/Put; " +
-		"R17.4 per-EVM recorder: R16.4 (fresh tracer per EVM; the interpreter's tracer is the EVM's). Races inside StateDB / Aspect runtime and promptness of cancellation (timing) are not decided."
+		"R17.5 closures returned by their constructor (the instruction and gas-function makers whose results live in the tables shared by all EVMs) only read what they capture; R16.5 the fork adds no package-level slice/map that is written or handed to a call; R17.4 per-EVM recorder: R16.4 (fresh tracer per EVM; the interpreter's tracer is the EVM's). Races inside StateDB / Aspect runtime and promptness of cancellation (timing) are not decided."
 	addSharedConstRule(w, r, "R17.1")
 	addGlobalWriteRule(w, r, "R17.1")
 	s := w.e1()
@@ -51,6 +61,8 @@ func checkC17(w *World, tier string) *Report {
 	addAtomicRule(w, r, "R17.3")
 	addFreshTracerRule(w, r, "R17.4")
 	r.Assumptions = append(r.Assumptions, "StateDB instances are not shared between concurrently running EVMs (stated in the property)", "sync.Pool and sync/atomic are safe for concurrent use")
+	addSharedClosureStateRule(w, r, "R17.5")
+	addMutableGlobalRule(w, r, "R16.5")
 	return r
 }
 
@@ -997,4 +1009,214 @@ func (w *World) funcClasses() map[*ssa.Function]FuncClass {
 		}
 	}
 	return out
+}
+
+
+// addMutableGlobalRule: a package-level variable that the fork adds and whose type has mutable backing
+// storage (slice, map, pointer to anything but a 256-bit constant handled by R16.2) is only read: it is
+// never handed to a call (which could append into or write through it), sliced for writing, stored
+// into, or used as the destination of copy/append. A process-wide scratch buffer makes the result of
+// one execution depend on (and be overwritten by) another.
+func addMutableGlobalRule(w *World, r *Report, rule string) {
+	vmRef := w.Pkgs[refPath(pkVM)]
+	n := 0
+	for path, sp := range w.SSA {
+		if !strings.HasPrefix(path, forkMod) {
+			continue
+		}
+		var refScope *types.Scope
+		for i := range pkgPairs {
+			if forkPath(i) == path {
+				if rp := w.Pkgs[refPath(i)]; rp != nil {
+					refScope = rp.Types.Scope()
+				}
+			}
+		}
+		_ = vmRef
+		var names []string
+		for nm := range sp.Members {
+			names = append(names, nm)
+		}
+		sort.Strings(names)
+		for _, nm := range names {
+			g, ok := sp.Members[nm].(*ssa.Global)
+			if !ok || strings.HasPrefix(nm, "init$") {
+				continue
+			}
+			if refScope != nil && refScope.Lookup(nm) != nil {
+				continue // inherited variable: the reference's
+			}
+			et := g.Type().Underlying().(*types.Pointer).Elem()
+			switch et.Underlying().(type) {
+			case *types.Slice, *types.Map:
+			default:
+				continue
+			}
+			n++
+			key := "global:" + pkgShortOf(path) + "." + nm
+			var bad []string
+			for _, fn := range w.forkFuncsAll() {
+				if fn.Pkg == nil || (fn.Name() == "init" && fn.Parent() == nil) || strings.HasPrefix(fn.Name(), "init#") {
+					continue
+				}
+				for _, b := range fn.Blocks {
+					for _, ins := range b.Instrs {
+						u, ok := ins.(*ssa.UnOp)
+						if !ok || u.Op != token.MUL || u.X != ssa.Value(g) {
+							continue
+						}
+						for _, rf := range *u.Referrers() {
+							switch x := rf.(type) {
+							case ssa.CallInstruction:
+								if bi, isB := x.Common().Value.(*ssa.Builtin); isB && (bi.Name() == "len" || bi.Name() == "cap") {
+									continue
+								}
+								bad = append(bad, "passed to "+x.Common().String()+" in "+relName(fn)+" at "+w.pos(rf.Pos()))
+							case *ssa.MapUpdate:
+								bad = append(bad, "updated in "+relName(fn)+" at "+w.pos(rf.Pos()))
+							case *ssa.IndexAddr, *ssa.Slice:
+								for _, r2 := range *rf.(ssa.Value).Referrers() {
+									if st, isSt := r2.(*ssa.Store); isSt && st.Addr == rf.(ssa.Value) {
+										bad = append(bad, "written in "+relName(fn)+" at "+w.pos(r2.Pos()))
+									}
+									if ci, isC := r2.(ssa.CallInstruction); isC {
+										if bi, isB := ci.Common().Value.(*ssa.Builtin); !isB || bi.Name() == "copy" || bi.Name() == "append" {
+											bad = append(bad, "its storage is handed to "+ci.Common().String()+" in "+relName(fn)+" at "+w.pos(r2.Pos()))
+										}
+									}
+								}
+							case *ssa.Store:
+								if x.Val == ssa.Value(u) {
+									bad = append(bad, "stored elsewhere in "+relName(fn)+" at "+w.pos(rf.Pos()))
+								}
+							}
+						}
+					}
+				}
+			}
+			if len(bad) > 0 {
+				sort.Strings(bad)
+				r.violated(rule, key, w.pos(g.Pos()), "a package-level variable with mutable backing storage added by the fork is not used read-only: "+strings.Join(bad, "; "))
+			} else {
+				r.holds(rule, key, w.pos(g.Pos()), "only read (indexing, range, len)")
+			}
+		}
+	}
+	r.holds(rule, "fork-only-mutable-globals", "-", fmt.Sprintf("%d package-level slice/map variables added by the fork", n))
+	r.need(rule, 1)
+}
+
+
+// addSharedClosureStateRule (R17.5): a closure that its enclosing function returns outlives the call that
+// made it — the instruction tables and gas-function tables are built once per process from such
+// constructors (makePush, makeLog, makeGasLog, memoryCopierGas …) and shared by every EVM. Such a
+// closure may read what it captured but must not write it: no store to a captured variable, and no
+// mutating method call or store through a pointer / slice / map loaded from a captured variable. A
+// scratch object hoisted out of the closure "to save an allocation" becomes process-wide mutable
+// state: concurrent EVMs race on it and one execution's operand is overwritten by another's.
+func addSharedClosureStateRule(w *World, r *Report, rule string) {
+	n := 0
+	for _, top := range w.Funcs(forkPath(pkVM)) {
+		// closures returned by top
+		returned := map[*ssa.Function]bool{}
+		for _, b := range top.Blocks {
+			ret, ok := b.Instrs[len(b.Instrs)-1].(*ssa.Return)
+			if !ok {
+				continue
+			}
+			for _, res := range ret.Results {
+				v := res
+				if ct, ok := v.(*ssa.ChangeType); ok {
+					v = ct.X
+				}
+				if mi, ok := v.(*ssa.MakeInterface); ok {
+					v = mi.X
+				}
+				if mc, ok := v.(*ssa.MakeClosure); ok {
+					if g, ok := mc.Fn.(*ssa.Function); ok {
+						returned[g] = true
+					}
+				}
+			}
+		}
+		for g := range returned {
+			n++
+			key := relName(g)
+			var bad []string
+			isFree := map[ssa.Value]bool{}
+			for _, fv := range g.FreeVars {
+				isFree[fv] = true
+			}
+			// values loaded from captured cells (pointers to shared objects)
+			shared := map[ssa.Value]bool{}
+			for _, b := range g.Blocks {
+				for _, ins := range b.Instrs {
+					if u, ok := ins.(*ssa.UnOp); ok && u.Op == token.MUL && isFree[u.X] {
+						switch u.Type().Underlying().(type) {
+						case *types.Pointer, *types.Slice, *types.Map:
+							shared[u] = true
+						}
+					}
+				}
+			}
+			for _, b := range g.Blocks {
+				for _, ins := range b.Instrs {
+					switch x := ins.(type) {
+					case *ssa.Store:
+						if isFree[x.Addr] {
+							bad = append(bad, "assigns the captured variable "+x.Addr.Name()+" at "+w.pos(x.Pos()))
+						}
+						rt, _, _ := addrRoot(x.Addr)
+						if shared[rt] {
+							bad = append(bad, "writes through the captured "+rt.Type().String()+" at "+w.pos(x.Pos()))
+						}
+					case *ssa.MapUpdate:
+						if shared[x.Map] {
+							bad = append(bad, "updates a captured map at "+w.pos(x.Pos()))
+						}
+					case ssa.CallInstruction:
+						c := x.Common()
+						cal := c.StaticCallee()
+						if cal != nil && cal.Signature.Recv() != nil && len(c.Args) > 0 && shared[c.Args[0]] {
+							if isBignumPtr(c.Args[0].Type()) && bignumReadOnly[cal.Name()] {
+								continue
+							}
+							if isBignumPtr(c.Args[0].Type()) || !isForkPkg(cal.Pkg) || recvWriter(cal) {
+								bad = append(bad, "calls the mutating method "+cal.Name()+" on a captured object at "+w.pos(ins.Pos()))
+							}
+						}
+						if bi, ok := c.Value.(*ssa.Builtin); ok && (bi.Name() == "copy" || bi.Name() == "append") && len(c.Args) > 0 && shared[c.Args[0]] {
+							bad = append(bad, bi.Name()+" into a captured slice at "+w.pos(ins.Pos()))
+						}
+					}
+				}
+			}
+			if len(bad) > 0 {
+				r.violated(rule, key, w.pos(g.Pos()), "a closure returned by "+relName(top)+" (installed in tables shared by all EVMs) "+strings.Join(dedup(bad), "; ")+": the captured object is process-wide mutable state")
+			} else {
+				r.holds(rule, key, w.pos(g.Pos()), "captures are only read")
+			}
+		}
+	}
+	if n < 6 {
+		r.violated(rule, "instance-count", "-", fmt.Sprintf("expected the table constructors' closures (makePush, makeDup, makeSwap, makeLog, gas-function makers …), found %d returned closures: the rule's anchors no longer resolve", n))
+	}
+	r.need(rule, 6)
+}
+
+// recvWriter: a fork method that stores through its receiver.
+func recvWriter(f *ssa.Function) bool {
+	if f == nil || f.Blocks == nil || len(f.Params) == 0 {
+		return true
+	}
+	for _, b := range f.Blocks {
+		for _, ins := range b.Instrs {
+			if st, ok := ins.(*ssa.Store); ok {
+				if rt, _, _ := addrRoot(st.Addr); rt == ssa.Value(f.Params[0]) {
+					return true
+				}
+			}
+		}
+	}
+	return false
 }
